@@ -6,6 +6,7 @@ import (
 	"pgregory.net/rapid"
 
 	"verif/internal/ev"
+	"verif/internal/vals"
 )
 
 // instance builds one include of ci on the page. k numbers the instance (different data per
@@ -138,6 +139,62 @@ func enumCore(ex exclusions, rec *ev.Rec, yield func(Case) bool) {
 								return
 							}
 						}
+					}
+				}
+			}
+		}
+	}
+}
+
+// enumEdge: content that was supplied but renders nothing (v-if false, v-for over an empty list)
+// for every supply form, against a slot with fallback: "exactly when nothing was supplied" - the
+// fallback must stay away; the second instance supplies nothing and must fall back.
+func enumEdge(yield func(Case) bool) {
+	variant := 0
+	for _, name := range []string{"", "a"} {
+		for _, f := range formsFor(name, true) {
+			if f.form == "none" || f.scope == "destr" {
+				continue
+			}
+			for _, kind := range []string{"if-false", "for-empty", "if-false-scoped"} {
+				for _, place := range []string{"wrap", "loop"} {
+					variant++
+					k := variant
+					b := &builder{ch: fixedCh{&k}}
+					ci := compInfo{idx: 1, file: "k1.vuego", elem: "m", slots: map[string]slotInfo{name: {props: []string{"item", "n"}}}, order: []string{name}}
+					c := Case{Comps: map[string]Comp{}, Data: fixedData(variant), Compact: variant%2 == 0}
+					c.Data["prec2"] = recV("rd", 2, false)
+					c.Comps[ci.file] = b.leaf(ci, []useSpec{{name: name, place: place, fallback: true}}, false, nil, "div")
+					var kid Node
+					switch kind {
+					case "if-false":
+						kid = Node{K: "el", Tag: "b", M: "e1", If: "pf", Kids: []Node{{K: "text", T: []Part{{L: "X1"}}}}}
+					case "for-empty":
+						kid = Node{K: "el", Tag: "b", M: "e1", For: &For{Item: "ee", List: "pempty"}, Kids: []Node{{K: "text", T: []Part{{L: "X1"}}}}}
+					default:
+						if f.scope != "var" || place == "loop" {
+							continue
+						}
+						// item is prec2 for the instance below, whose ok is false
+						kid = Node{K: "el", Tag: "b", M: "e1", If: "sp.item.ok", Kids: []Node{{K: "text", T: []Part{{L: "X1"}}}}}
+					}
+					c.Data["pempty"] = vals.List("[]any")
+					inc := Node{K: "inc", Comp: ci.file, Stat: []KV{{K: ci.title(), V: "T1"}},
+						Bind: []KV{{K: ci.num(), V: "pn"}, {K: ci.items(), V: "prows"}, {K: ci.rec(), V: "prec2"}}}
+					if f.form == "plain" {
+						inc.Kids = []Node{kid}
+					} else {
+						sp := Supply{Form: f.form, Name: name, Kids: []Node{kid}}
+						if f.scope == "var" {
+							sp.Var = "sp"
+						}
+						inc.Sup = []Supply{sp}
+					}
+					none := Node{K: "inc", Comp: ci.file, Stat: []KV{{K: ci.title(), V: "T2"}},
+						Bind: []KV{{K: ci.num(), V: "pn"}, {K: ci.items(), V: "prows"}, {K: ci.rec(), V: "prec"}}}
+					c.Page = page(b, []Node{inc, none})
+					if !yield(c) {
+						return
 					}
 				}
 			}
